@@ -153,8 +153,123 @@ def check_packet_unpack(ctx, rule):
             ctx.violation(rule, fi, '%s: %s' % (label, ' '.join(trace)[:300]), why, fi.node.lineno)
 
 
+def check_exception_texts_total(ctx, rule='R7-error-text-total'):
+    """Round 7.  the drivers turn a field's failure into a PacketError by str(e): the text of every
+    exception class of the package must be computable for every raise site.  A __str__ that
+    %-formats a constructor argument with an integer conversion (%i %d %x) fails with TypeError --
+    inside the handler, so a bare TypeError leaves unpack / pack -- when a raise site passes a byte
+    string (a slice of the input) for it"""
+    repo = ctx.repo
+    n_cls = n_sites = 0
+    for ci in repo.classes.values():
+        if ci.name == 'PacketError' or not any(b in ('Exception', 'BaseException', 'ValueError', 'TypeError', 'RuntimeError', 'EOFError', 'IOError', 'OSError', 'LookupError', 'KeyError', 'IndexError') or b.endswith('Error') for b in ci.base_names):
+            continue
+        strm = ci.methods.get('__str__')
+        init = ci.methods.get('__init__')
+        if strm is None or init is None:
+            continue
+        n_cls += 1
+        params = [a.arg for a in init.node.args.args][1:]
+        kept = {}
+        for n in ast.walk(init.node):
+            if isinstance(n, ast.Assign) and len(n.targets) == 1 and isinstance(n.targets[0], ast.Attribute) and canon(n.targets[0].value) == 'self' \
+                    and isinstance(n.value, ast.Name) and n.value.id in params:
+                kept[n.targets[0].attr] = n.value.id
+        # which parameters are formatted with an integer conversion
+        int_params = {}
+        import re as _re
+        for n in ast.walk(strm.node):
+            if isinstance(n, ast.BinOp) and isinstance(n.op, ast.Mod) and isinstance(n.left, ast.Constant) and isinstance(n.left.value, str):
+                convs = _re.findall(r'%(?:\([^)]*\))?[#0\- +]*\d*(?:\.\d+)?([a-zA-Z%])', n.left.value)
+                convs = [c for c in convs if c != '%']
+                vals = n.right.elts if isinstance(n.right, ast.Tuple) else [n.right]
+                if len(vals) != len(convs):
+                    continue
+                for c, v in zip(convs, vals):
+                    if c in 'idxXo' and isinstance(v, ast.Attribute) and canon(v.value) == 'self' and v.attr in kept:
+                        int_params[kept[v.attr]] = c
+        if not int_params:
+            continue
+        for fn in repo.functions.values():
+            defs = {}
+            for n in ast.walk(fn.node):
+                if isinstance(n, ast.Assign) and len(n.targets) == 1 and isinstance(n.targets[0], ast.Name):
+                    defs.setdefault(n.targets[0].id, []).append(n.value)
+            for r in ast.walk(fn.node):
+                if not (isinstance(r, ast.Raise) and isinstance(r.exc, ast.Call) and call_name(r.exc) and call_name(r.exc).split('.')[-1] == ci.name):
+                    continue
+                n_sites += 1
+                bound = dict(zip(params, r.exc.args))
+                for k_ in r.exc.keywords:
+                    if k_.arg:
+                        bound[k_.arg] = k_.value
+                for prm, conv in int_params.items():
+                    a = bound.get(prm)
+                    if a is None:
+                        continue
+                    v = a
+                    if isinstance(v, ast.Name) and len(defs.get(v.id, [])) == 1:
+                        v = defs[v.id][0]
+                    is_bytes = isinstance(v, ast.Subscript) and isinstance(v.slice, ast.Slice) and canon(v.value) in ('raw', 'data', 'string')
+                    is_bytes = is_bytes or (isinstance(v, ast.Constant) and isinstance(v.value, (bytes, str)))
+                    st = '%s: raise %s(... %s=%s ...)' % (fn.qual, ci.name, prm, canon(a)[:40])
+                    if is_bytes:
+                        ctx.violation(rule, fn, st, '%s.__str__ formats %s with %%%s but this site passes a byte string (%s): str(e) in the driver\'s handler raises TypeError, which leaves unpack / pack bare instead of a PacketError naming this field' % (ci.name, prm, conv, canon(v)[:40]), r.lineno, clause='e', witness=True)
+                    else:
+                        ctx.holds(rule, fn, st, 'not a byte string', r.lineno, clause='e')
+    ctx.unit('exception_classes_with_text', n_cls)
+    if not n_cls:
+        ctx.holds(rule, ('bisturi', '<exception classes>'), 'no exception class of the package besides PacketError computes its text', 'str(e) of a field failure is the text given at the raise site', 0, clause='e')
+
+
+def check_child_errors_pass_through(ctx, rule='R7-child-error-passes-through'):
+    """Round 7.  a field that parses / packs a child (an element, a referenced packet) lets the
+    child's PacketError through unchanged: it carries the stack built inside the child.  A handler
+    around the child call that catches it (Exception, BaseException, PacketError, bare) and raises
+    another object -- type(e)(text), Exception(str(e)) -- throws that stack away: the innermost
+    entry then names the enclosing field instead of the field that failed"""
+    repo = ctx.repo
+    seen = set()
+    n_try = 0
+    for ci in repo.field_classes():
+        for s_ in repo.strategies(ci):
+            for kind in ('pack', 'unpack'):
+                fi = s_.get(kind)
+                if fi is None or fi.id in seen:
+                    continue
+                seen.add(fi.id)
+                for t in ast.walk(fi.node):
+                    if not isinstance(t, ast.Try):
+                        continue
+                    calls = [c for b in t.body for c in ast.walk(b) if isinstance(c, ast.Call) and (
+                        (isinstance(c.func, ast.Attribute) and c.func.attr in ('pack', 'unpack', 'pack_impl', 'unpack_impl')) or (isinstance(c.func, ast.Name) and c.func.id in ('pack', 'unpack')))]
+                    if not calls:
+                        continue
+                    n_try += 1
+                    for h in t.handlers:
+                        types = ['BaseException'] if h.type is None else [canon(x).split('.')[-1] for x in (h.type.elts if isinstance(h.type, ast.Tuple) else [h.type])]
+                        if not any(x in ('Exception', 'BaseException', 'PacketError') for x in types):
+                            continue
+                        raises = [x for x in ast.walk(h) if isinstance(x, ast.Raise)]
+                        st = '%s: try: %s except %s' % (fi.qual, canon(calls[0])[:50], ', '.join(types))
+                        same = [x for x in raises if x.exc is None or (isinstance(x.exc, ast.Name) and x.exc.id == h.name)]
+                        other = [x for x in raises if x not in same]
+                        if other:
+                            ctx.violation(rule, fi, '%s: %s' % (st, stmt_text(other[0])[:80]), 'the failure of the child is replaced by a new exception object: a PacketError raised inside the child loses its stack (or cannot even be rebuilt from a text), so the reported innermost field is the enclosing one', other[0].lineno, clause='a', witness=True)
+                        elif not raises:
+                            ctx.violation(rule, fi, st, 'the failure of the child is swallowed: no PacketError is raised for it', h.lineno, clause='a', witness=True)
+                        else:
+                            ctx.holds(rule, fi, st, 'the caught exception itself is re-raised', h.lineno, clause='a')
+    ctx.unit('try_around_child_calls', n_try)
+    if not n_try:
+        ctx.holds(rule, ('bisturi', '<field strategies>'), 'no field strategy wraps a child pack / unpack in a try', 'child errors pass through', 0, clause='a')
+
+
 def check_packet_error_class(ctx):
     repo = ctx.repo
+    check_exception_texts_total(ctx)
+    if ctx.prop == 'C12':
+        check_child_errors_pass_through(ctx)
     pe = repo.cls('PacketError')
     if not repo.is_subclass(pe, 'PacketError') or 'Exception' not in pe.base_names:
         ctx.violation('R7-error-class', (pe.file, 'PacketError'), 'class PacketError(%s)' % ', '.join(pe.base_names), 'PacketError does not derive from Exception', pe.node.lineno)
